@@ -107,6 +107,12 @@ func (r c06result) String() string {
 // c06serve registers the routes in the given order on a fresh real Engine and serves one request.
 // routes are "<M><pattern>" with M = G or P.  ok=false: registration panicked.
 func c06serve(optBits int, routes []string, order []int, method, uri string) (res c06result, rPath string, ok bool) {
+	res, rPath, ok, _ = c06serveDump(optBits, routes, order, method, uri)
+	return
+}
+
+// c06serveDump also renders the radix tree of the request's method (hook H3)
+func c06serveDump(optBits int, routes []string, order []int, method, uri string) (res c06result, rPath string, ok bool, dump string) {
 	e := newRunningEngine(func(o *config.Options) {
 		o.UseRawPath = optBits&1 != 0
 		o.UnescapePathValues = optBits&2 == 0
@@ -160,6 +166,14 @@ func c06serve(optBits int, routes []string, order []int, method, uri string) (re
 	}
 	e.ServeHTTP(context.Background(), ctx)
 	res.status = ctx.Response.StatusCode()
+	dump = e.DumpTreeForVerif(method, func(ppath string) string {
+		for i, r := range routes {
+			if map[byte]string{'G': "GET", 'P': "POST"}[r[0]] == method && r[1:] == ppath {
+				return fmt.Sprint(i)
+			}
+		}
+		return "?" + ppath
+	})
 	return
 }
 
@@ -183,7 +197,7 @@ func init() {
 			rand.New(rand.NewSource(int64(seed))).Shuffle(len(order), func(i, j int) { order[i], order[j] = order[j], order[i] })
 			m := map[string]string{"G": "GET", "P": "POST"}[method]
 			r1, rPath, ok1 := c06serve(optBits, routes, ident, m, uri)
-			r2, _, ok2 := c06serve(optBits, routes, order, m, uri)
+			r2, _, ok2, dump2 := c06serveDump(optBits, routes, order, m, uri)
 			var fs []Finding
 			bad := func(class, impl, expect string) {
 				fs = append(fs, Finding{Kind: "oracle", Unit: "c06.router", Class: class, Impl: impl, Expect: expect})
@@ -259,6 +273,29 @@ func init() {
 						if j != r1.ran && !c06better(ts, c06tokens(routes[j][1:])) {
 							bad("a-higher-priority-route-matches", r1.String(), routes[j])
 						}
+					}
+				}
+			}
+			// the compressed tree itself: the real tree built in this registration order against Model/Radix.v
+			// (shape, handlers), which also certifies that the tree is well-formed and holds exactly the routes
+			{
+				var ord []string
+				for _, i := range order {
+					if routes[i][:1] == method {
+						ord = append(ord, fmt.Sprint(i))
+					}
+				}
+				rargs := [][]byte{[]byte(strings.Join(ord, ","))}
+				for _, r := range routes {
+					rargs = append(rargs, []byte(r[1:]))
+				}
+				want := "wf=1 routes=1 " + dump2
+				if len(ord) == 0 {
+					want = "wf=1 routes=1 S\"\"[|-|-]"
+				}
+				if len(ord) > 0 {
+					if mod := t.M.Call("radix_script", rargs...); mod != want {
+						fs = append(fs, Finding{Kind: "corr", Unit: "c06.router", Class: "radix_script", Impl: want, Model: mod})
 					}
 				}
 			}
